@@ -375,6 +375,14 @@ class SReal(SNum):
     def __int__(self):
         return self.g.realize(self.__trunc__().e)
 
+    def __round__(self, n=None):
+        if n is not None:
+            raise TypeError("round(symbolic, ndigits) is not modelled")
+        f = z3.ToInt(self.e)
+        d = self.e - z3.ToReal(f)
+        half = z3.RealVal("1/2")
+        return SInt(self.g, z3.If(d < half, f, z3.If(d > half, f + 1, z3.If(f % 2 == 0, f, f + 1))))
+
     def is_integer(self):
         return SBool(self.g, z3.ToReal(z3.ToInt(self.e)) == self.e)
 
